@@ -70,12 +70,21 @@ const promptingWatchdog = 10 * time.Second
 func registryCase(pc pcase) map[string]any {
 	p := &probe{delays: pc.Delays}
 	id := fmt.Sprintf("%s-%d", pc.ID, pcaseSerial.Add(1))
-	if err := prompting.RegisterPrompterWithIdentifier(id, p); err != nil {
-		vlib.Fatal("register: %v", err)
-	}
+	k := newClock()
 	var mu sync.Mutex
 	panics := []string{}
 	results := map[string]int{}
+	// no registry call is made on this goroutine: registration too runs under the watchdog
+	var regErr error
+	regDone := make(chan struct{})
+	go func() { regErr = prompting.RegisterPrompterWithIdentifier(id, p); close(regDone) }()
+	if !waitOrTimeout(regDone, promptingWatchdog) {
+		return map[string]any{"ev": "RegistryCase", "invs": []map[string]any{}, "unreg": map[string]any{"ticket": int64(-1)},
+			"panics": panics, "results": map[string]any{}, "hung": true, "elapsed": k.us()}
+	}
+	if regErr != nil {
+		vlib.Fatal("register: %v", regErr)
+	}
 	note := func(what string) { mu.Lock(); results[what]++; mu.Unlock() }
 	guarded := func(f func()) {
 		defer func() {
@@ -131,6 +140,7 @@ func registryCase(pc pcase) map[string]any {
 	all := make(chan struct{})
 	go func() { wg.Wait(); <-unregDone; close(all) }()
 	hung := !waitOrTimeout(all, promptingWatchdog)
+	elapsed := k.us()
 	p.mu.Lock()
 	invs := append([]map[string]any{}, p.invs...)
 	p.mu.Unlock()
@@ -142,7 +152,7 @@ func registryCase(pc pcase) map[string]any {
 	}
 	return map[string]any{"ev": "RegistryCase", "invs": invs,
 		"unreg":  map[string]any{"ticket": atomic.LoadInt64(&unregTicket)},
-		"panics": append([]string{}, panics...), "results": res, "hung": hung}
+		"panics": append([]string{}, panics...), "results": res, "hung": hung, "elapsed": elapsed}
 }
 
 func asciiOnly(s string) string {
@@ -313,8 +323,12 @@ func replayPrompting(c *vlib.Ctx, begin map[string]any) error {
 	vlib.Decode(begin["in"], &pc)
 	// the schedule is not reproducible exactly: run the same case a few times
 	for i := 0; i < 20; i++ {
+		before := overruns.Load()
 		rec := registryCase(pc)
 		emitRegistryCase(c, i, pc, rec)
+		if overruns.Load() > before {
+			break
+		}
 	}
 	return nil
 }
